@@ -48,7 +48,7 @@ package runner
 
 // ---- the pieces of (*TaskRunner).Run
 // runnerOK: the runner's containers exist and every registered context has an environment
-//@ pred runnerOK(r *TaskRunner) := r != nil && r.ctx != nil && r.compiler != nil && r.compiler.variables != nil && r.variables != nil && r.env != nil && (forall k string :: k in r.contexts ==> r.contexts[k] != nil && r.contexts[k].Env != nil && r.contexts[k].Variables != nil)
+//@ pred runnerOK(r *TaskRunner) := r != nil && r.Stdout != nil && r.ctx != nil && r.compiler != nil && r.compiler.variables != nil && r.variables != nil && r.env != nil && (forall k string :: k in r.contexts ==> r.contexts[k] != nil && r.contexts[k].Env != nil && r.contexts[k].Variables != nil)
 //@ pred taskOK(t *task.Task) := t != nil && t.Env != nil && t.Variables != nil
 
 //@ func (*TaskRunner).contextForTask
